@@ -363,6 +363,10 @@ func (e *Env) CloseDB() error {
 	if e.DB == nil {
 		return nil
 	}
+	if watchStart.Load() == 0 { // Close must return: watched also when called outside Apply
+		WatchBegin(e)
+		defer WatchEnd()
+	}
 	err := e.DB.Close()
 	e.DB = nil
 	e.Mark("close", 0)
